@@ -186,8 +186,9 @@ FAMILIES = [
            reach=['none', 'several-messages'],
            bounds='1 producer x 2 puts, 3 consumers subscribing / leaving at different dates'),
     Family('p1c3', fam_channel,
-           thorough=dict(np_=1, nc=3, fault_kinds=[Fault.NONE, Fault.CANCEL, Fault.CLOSE], pmax=2,
-                         slow=False, placements=False, _max_paths=900000, _max_wall=1200),
+           thorough=dict(np_=1, nc=3, fault_kinds=[Fault.NONE, Fault.CLOSE], pmax=2,
+                         slow=False, placements=False, close_modes=1, _max_paths=900000,
+                         _max_wall=1200),
            bounds='1 producer, 3 consumers'),
     Family('p1c2_real', fam_channel,
            thorough=dict(np_=1, nc=2, fault_kinds=[Fault.NONE, Fault.CANCEL], real=True),
